@@ -1,3 +1,197 @@
-import FalconModel.Isa.X86
-namespace Falcon.C01
-end Falcon.C01
+/-
+  C01 — the x86/amd64 lifter agrees with the processor on every instruction and state.
+
+  FULL PROPERTY (properties.jsonl): for every 32-bit x86 or x86-64 encoding the lifter accepts and every state in which
+  the architecture defines the outcome, running the lifted IL ends with the same general/XMM registers, memory,
+  CF/ZF/SF/OF/DF and next instruction address as the processor; lifting never fails with a sort error.
+
+      theorem lift_correct (i : X86.Ins) (r : BTR) : lift i = .ok r → ∀ σ st, Rel σ st →
+          runBTR r σ  agrees with  X86.step i st   on every register, flag, memory byte and the next address
+
+  WHAT IS PROVED HERE (all of it universal over operand values / register contents / states; nothing is bounded):
+    (A) mirror + theorem, at the level of the lifter's shared helpers — every builder is assembled from them:
+        * flag formulas of add/adc/sub/sbb/cmp/inc/dec/neg (`set_zf/set_sf/set_of/set_cf`, the two-step carries) equal
+          the SDM definitions at 8/16/32/64 bits                                  — flags_*  (bit-vector level)
+        * the IL expressions those helpers build denote these formulas in every state  — il_zf … il_cf_add, add_flags_il,
+          sub_flags_il (the latter two: the complete flag set of add resp. sub/cmp equals `X86.addWith` / `X86.subWith`)
+        * shift CF/result formulas of shl/shr/sar equal the SDM's for every masked count  — shift_*
+        * `cc_condition` equals the SDM condition table for all 16 codes               — il_cc_condition
+        * sub-register algebra of `X86Register::get/set` (64/32/16/8-bit, high byte): bit-vector level (subreg_*) and
+          IL level in 64-bit mode (il_reg_get, il_reg_set)
+        For the class {mov add sub cmp and or xor} x (register, register) the mirror `X86Lift.liftRR` reproduces the
+        whole `BlockTranslationResult`; the driver compares it SYNTACTICALLY with falcon's dumped IL on every case of
+        the class (both modes, all sub-register shapes) — a difference is a broken correspondence.
+    (B) none (no regenerated per-encoding theorems).
+    (C) differential only — falcon's executor vs Lean IL semantics vs this specification vs the host CPU (amd64):
+        every other mnemonic and operand form (memory operands, immediates, shifts/rotates as whole instructions,
+        mul/div, bit tests, string instructions, stack and control transfer, SSE subset); listed as
+        `unproved_mnemonics` in the evidence.
+  MISSING for `lift_correct` even on the mirrored class: the plumbing from "each emitted expression denotes X" to
+  `runBTR` of the one-block graph (sequencing of the assignments through `State.set`, the temporaries, and the
+  `Rel σ st` frame).  It is stated above and NOT claimed; the theorems below are named for what they state.
+-/
+import FalconProofs.C01.Flags
+import FalconProofs.C01.Shifts
+import FalconProofs.C01.SubReg
+import FalconProofs.C01.FlagsIL
+import FalconProofs.C01.Cond
+import FalconProofs.C01.RegIL
+
+namespace Falcon.C01.Props
+open Falcon Falcon.X86 Falcon.X86Lift Falcon.Const Falcon.Sem Falcon.C01
+
+/-! ### flag formulas = SDM definitions, all values, widths 8/16/32/64 -/
+
+theorem flags_sf {w : Nat} (hw : OpWidth w) (r : BitVec w) : fSf r = msb r := sf_eq hw r
+
+theorem flags_add {w : Nat} (hw : OpWidth w) (a b : BitVec w) :
+    fCfAdd (a + b) a = carryAdd a b false ∧ fOf (a + b) a b false = overflowAdd a b false :=
+  ⟨add_cf_eq hw a b, add_of_eq hw a b⟩
+
+theorem flags_adc {w : Nat} (hw : OpWidth w) (a b : BitVec w) (c : Bool) :
+    fCfAdc a b c = carryAdd a b c ∧ fOf (a + b + (BitVec.ofBool c).setWidth w) a b false = overflowAdd a b c :=
+  ⟨adc_cf_eq hw a b c, adc_of_eq hw a b c⟩
+
+/-- sub and cmp -/
+theorem flags_sub {w : Nat} (hw : OpWidth w) (a b : BitVec w) :
+    fCfSub (a - b) a = borrowSub a b false ∧ fOf (a - b) a b true = overflowSub a b false :=
+  ⟨sub_cf_eq hw a b, sub_of_eq hw a b⟩
+
+theorem flags_sbb {w : Nat} (hw : OpWidth w) (a b : BitVec w) (c : Bool) :
+    fCfSbb a b c = borrowSub a b c ∧ fOf (a - b - (BitVec.ofBool c).setWidth w) a b true = overflowSub a b c :=
+  ⟨sbb_cf_eq hw a b c, sbb_of_eq hw a b c⟩
+
+/-- inc and dec are add/sub of one with CF left alone: OF by the same formula -/
+theorem flags_inc_dec {w : Nat} (hw : OpWidth w) (a : BitVec w) :
+    fOf (a + 1) a 1 false = overflowAdd a 1 false ∧ fOf (a - 1) a 1 true = overflowSub a 1 false :=
+  ⟨add_of_eq hw a 1, sub_of_eq hw a 1⟩
+
+/-- neg is `0 - a`; its CF is `a != 0` -/
+theorem flags_neg {w : Nat} (hw : OpWidth w) (a : BitVec w) :
+    (a != 0) = borrowSub 0 a false ∧ fOf (0 - a) 0 a true = overflowSub 0 a false :=
+  ⟨neg_cf_eq hw a, sub_of_eq hw 0 a⟩
+
+/-! ### shifts -/
+
+theorem shift_shl_cf8 (a c : BitVec 8) (h0 : c ≠ 0) (h : c ≤ 31) : fCfShl a c = (shlSpec a c.toNat).cf := shl_cf_eq8 a c h0 h
+theorem shift_shl_cf16 (a c : BitVec 16) (h0 : c ≠ 0) (h : c ≤ 31) : fCfShl a c = (shlSpec a c.toNat).cf := shl_cf_eq16 a c h0 h
+theorem shift_shl_cf32 (a c : BitVec 32) (h0 : c ≠ 0) (h : c ≤ 31) : fCfShl a c = (shlSpec a c.toNat).cf := shl_cf_eq32 a c h0 h
+theorem shift_shl_cf64 (a c : BitVec 64) (h0 : c ≠ 0) (h : c ≤ 63) : fCfShl a c = (shlSpec a c.toNat).cf := shl_cf_eq64 a c h0 h
+theorem shift_shr_cf {w : Nat} (hw : OpWidth w) (a c : BitVec w) (h0 : c ≠ 0) : fCfShr a c = (shrSpec a c.toNat).cf := shr_cf_eq hw a c h0
+theorem shift_sar_cf {w : Nat} (hw : OpWidth w) (a c : BitVec w) (h0 : c ≠ 0) : fCfSar a c = (sarSpec a c.toNat).cf := sar_cf_eq hw a c h0
+theorem shift_results {w : Nat} (a c : BitVec w) :
+    a <<< c = (shlSpec a c.toNat).r ∧ a >>> c = (shrSpec a c.toNat).r ∧ a.sshiftRight' c = (sarSpec a c.toNat).r :=
+  ⟨rfl, rfl, rfl⟩
+
+/-! ### sub-registers, bit-vector level -/
+
+theorem subreg_get (σ : St) (i : Nat) :
+    getReg σ ⟨i, 64, 0⟩ 64 = σ.gpr i ∧ getReg σ ⟨i, 32, 0⟩ 32 = fGetLow (σ.gpr i) 32 ∧
+    getReg σ ⟨i, 16, 0⟩ 16 = fGetLow (σ.gpr i) 16 ∧ getReg σ ⟨i, 8, 0⟩ 8 = fGetLow (σ.gpr i) 8 ∧
+    getReg σ ⟨i, 8, 8⟩ 8 = fGetHigh (σ.gpr i) :=
+  ⟨get64 σ i, get32 σ i, get16 σ i, get8 σ i, get8h σ i⟩
+
+theorem subreg_set (old : BitVec 64) (i : Nat) (v64 : BitVec 64) (v32 : BitVec 32) (v16 : BitVec 16) (v8 : BitVec 8) :
+    mergeReg old ⟨i, 64, 0⟩ v64 = v64 ∧ mergeReg old ⟨i, 32, 0⟩ (v32.setWidth 64) = fSet32 v32 ∧
+    mergeReg old ⟨i, 16, 0⟩ (v16.setWidth 64) = fSetLow old v16 ∧ mergeReg old ⟨i, 8, 0⟩ (v8.setWidth 64) = fSetLow old v8 ∧
+    mergeReg old ⟨i, 8, 8⟩ (v8.setWidth 64) = fSetHigh old v8 :=
+  ⟨set64 old v64 i, set32 old v32 i, set16 old v16 i, set8 old v8 i, set8h old v8 i⟩
+
+/-- the architecture's rules: 32-bit writes zero the upper half, 16/8-bit writes keep the rest, ah..bh are bits 8..15 -/
+theorem subreg_rules (old : BitVec 64) (i : Nat) (v32 : BitVec 32) (v16 : BitVec 16) (v8 : BitVec 8) :
+    ((mergeReg old ⟨i, 32, 0⟩ (v32.setWidth 64)) >>> 32 = 0 ∧ (mergeReg old ⟨i, 32, 0⟩ (v32.setWidth 64)).setWidth 32 = v32) ∧
+    ((mergeReg old ⟨i, 16, 0⟩ (v16.setWidth 64)) >>> 16 = old >>> 16 ∧ (mergeReg old ⟨i, 16, 0⟩ (v16.setWidth 64)).setWidth 16 = v16) ∧
+    ((mergeReg old ⟨i, 8, 0⟩ (v8.setWidth 64)) >>> 8 = old >>> 8 ∧ (mergeReg old ⟨i, 8, 0⟩ (v8.setWidth 64)).setWidth 8 = v8) ∧
+    ((mergeReg old ⟨i, 8, 8⟩ (v8.setWidth 64)) >>> 16 = old >>> 16 ∧ (mergeReg old ⟨i, 8, 8⟩ (v8.setWidth 64)).setWidth 8 = old.setWidth 8 ∧
+      ((mergeReg old ⟨i, 8, 8⟩ (v8.setWidth 64)) >>> 8).setWidth 8 = v8) :=
+  ⟨write32_zero_extends old v32 i, write16_preserves old v16 i, write8_preserves old v8 i, write_high_byte old v8 i⟩
+
+/-- the defect repaired by da452c2 is a defect: the old expression differs from the architecture for some contents -/
+theorem subreg_old_high_byte_defect :
+    ∃ (old : BitVec 64) (v : BitVec 8), ((old &&& (0xff#64 <<< 8)) ||| (v.setWidth 64 <<< 8)) ≠ mergeReg old ⟨0, 8, 8⟩ (v.setWidth 64) :=
+  old_high_byte_mask_wrong
+
+/-! ### the helpers' IL expressions denote the formulas, in every state -/
+
+theorem il_zf (σ : State) (res : Expr) {w : Nat} (r : BitVec w) (h : Val σ res r) :
+    ∃ e, zfExpr res = .ok e ∧ value σ e = .ok (bit (fZf r)) := zf_value σ res r h
+
+theorem il_sf (σ : State) (res : Expr) {w : Nat} (hw : 2 ≤ w) (h64 : w < 2 ^ 64) (r : BitVec w) (h : Val σ res r) :
+    ∃ e, sfExpr res = .ok e ∧ value σ e = .ok (bit (fSf r)) := sf_value σ res hw h64 r h
+
+theorem il_of (σ : State) (res lhs rhs : Expr) {w : Nat} (hw : 2 ≤ w) (h64 : w ≤ 64) (r a b : BitVec w) (sub : Bool)
+    (hr : Val σ res r) (ha : Val σ lhs a) (hb : Val σ rhs b) :
+    ∃ e, ofExpr res lhs rhs sub = .ok e ∧ value σ e = .ok (bit (fOf r a b sub)) := of_value σ res lhs rhs hw h64 r a b sub hr ha hb
+
+theorem il_cf_sub (σ : State) (res lhs : Expr) {w : Nat} (r a : BitVec w) (hr : Val σ res r) (ha : Val σ lhs a) :
+    ∃ e, cfSubExpr res lhs = .ok e ∧ value σ e = .ok (bit (fCfSub r a)) := cfSub_value σ res lhs r a hr ha
+
+theorem il_cf_add (σ : State) (res lhs : Expr) {w : Nat} (r a : BitVec w) (hr : Val σ res r) (ha : Val σ lhs a) :
+    ∃ e, cfAddExpr res lhs = .ok e ∧ value σ e = .ok (bit (fCfAdd r a)) := cfAdd_value σ res lhs r a hr ha
+
+/-- add: the four flag expressions the builder emits exist (no sort error) and denote exactly the flags the SDM
+    defines (`X86.addWith`), whatever the operand values, at every operand width -/
+theorem add_flags_il (σ : State) (st : St) (res lhs rhs : Expr) {w : Nat} (hw : OpWidth w) (a b : BitVec w)
+    (ha : Val σ lhs a) (hb : Val σ rhs b) (hr : Val σ res (a + b)) :
+    ∃ ez es eo ec, zfExpr res = .ok ez ∧ sfExpr res = .ok es ∧ ofExpr res lhs rhs false = .ok eo ∧ cfAddExpr res lhs = .ok ec ∧
+      value σ ez = .ok (bit (addWith st a b false).2.zf) ∧ value σ es = .ok (bit (addWith st a b false).2.sf) ∧
+      value σ eo = .ok (bit (addWith st a b false).2.of) ∧ value σ ec = .ok (bit (addWith st a b false).2.cf) := by
+  have h2 : 2 ≤ w := by rcases hw with rfl | rfl | rfl | rfl <;> omega
+  have h64 : w ≤ 64 := by rcases hw with rfl | rfl | rfl | rfl <;> omega
+  obtain ⟨ez, hz1, hz2⟩ := zf_value σ res (a + b) hr
+  obtain ⟨es, hs1, hs2⟩ := sf_value σ res h2 (by omega) (a + b) hr
+  obtain ⟨eo, ho1, ho2⟩ := of_value σ res lhs rhs h2 h64 (a + b) a b false hr ha hb
+  obtain ⟨ec, hc1, hc2⟩ := cfAdd_value σ res lhs (a + b) a hr ha
+  refine ⟨ez, es, eo, ec, hz1, hs1, ho1, hc1, ?_, ?_, ?_, ?_⟩
+  · simpa [addWith, setSZ, fZf] using hz2
+  · rw [hs2, sf_eq hw]; simp [addWith, setSZ]
+  · rw [ho2, add_of_eq hw]; simp [addWith, setSZ]
+  · rw [hc2, add_cf_eq hw]; simp [addWith, setSZ]
+
+/-- sub and cmp: likewise against `X86.subWith` -/
+theorem sub_flags_il (σ : State) (st : St) (res lhs rhs : Expr) {w : Nat} (hw : OpWidth w) (a b : BitVec w)
+    (ha : Val σ lhs a) (hb : Val σ rhs b) (hr : Val σ res (a - b)) :
+    ∃ ez es eo ec, zfExpr res = .ok ez ∧ sfExpr res = .ok es ∧ ofExpr res lhs rhs true = .ok eo ∧ cfSubExpr res lhs = .ok ec ∧
+      value σ ez = .ok (bit (subWith st a b false).2.zf) ∧ value σ es = .ok (bit (subWith st a b false).2.sf) ∧
+      value σ eo = .ok (bit (subWith st a b false).2.of) ∧ value σ ec = .ok (bit (subWith st a b false).2.cf) := by
+  have h2 : 2 ≤ w := by rcases hw with rfl | rfl | rfl | rfl <;> omega
+  have h64 : w ≤ 64 := by rcases hw with rfl | rfl | rfl | rfl <;> omega
+  obtain ⟨ez, hz1, hz2⟩ := zf_value σ res (a - b) hr
+  obtain ⟨es, hs1, hs2⟩ := sf_value σ res h2 (by omega) (a - b) hr
+  obtain ⟨eo, ho1, ho2⟩ := of_value σ res lhs rhs h2 h64 (a - b) a b true hr ha hb
+  obtain ⟨ec, hc1, hc2⟩ := cfSub_value σ res lhs (a - b) a hr ha
+  refine ⟨ez, es, eo, ec, hz1, hs1, ho1, hc1, ?_, ?_, ?_, ?_⟩
+  · simpa [subWith, setSZ, fZf] using hz2
+  · rw [hs2, sf_eq hw]; simp [subWith, setSZ]
+  · rw [ho2, sub_of_eq hw]; simp [subWith, setSZ]
+  · rw [hc2, sub_cf_eq hw]; simp [subWith, setSZ]
+
+/-- `cc_condition` (jcc, setcc, cmovcc): all sixteen codes -/
+theorem il_cc_condition (σ : State) (s : St) (h : FlagsHeld σ s) (c : Nat) (hc : c < 16) :
+    ∃ e, ccExpr c = .ok e ∧ value σ e = .ok (bit (X86.cond s c)) := cc_value σ s h c hc
+
+/-- `X86Register::get`, 64-bit mode, all five shapes -/
+theorem il_reg_get (σ : State) (r : GReg) (hr : Shape r) (x : BitVec 64)
+    (h : σ.get (fullName .amd64 r.idx) = some (ofBV x)) :
+    ∃ e, regGet .amd64 r = .ok e ∧ Val σ e (((x >>> r.off).setWidth r.bits).setWidth r.bits) := regGet_value σ r hr x h
+
+/-- `X86Register::set`, 64-bit mode, all five shapes: the full register receives the architecture's merge -/
+theorem il_reg_set (σ : State) (r : GReg) (hr : Shape r) (x : BitVec 64) (ve : Expr) (v : BitVec r.bits)
+    (h : σ.get (fullName .amd64 r.idx) = some (ofBV x)) (hv : Val σ ve v) :
+    ∃ e, regSetExpr .amd64 r ve = .ok e ∧ Val σ e (mergeReg x r (v.setWidth 64)) := regSet_value σ r hr x ve v h hv
+
+/-! ### non-vacuity -/
+
+/-- a state holding rbx and a constant: the hypotheses of `il_reg_set` for `mov bh, 0xb0` are met -/
+example : ∃ (σ : State), σ.get (fullName .amd64 3) = some (ofBV 0x30ba02d9baf74b65#64) ∧ Val σ (Expr.ec 0xb0 8) (0xb0#8) :=
+  ⟨{ scalars := [("rbx", ofBV 0x30ba02d9baf74b65#64)] }, rfl, val_ec _ 0xb0 8⟩
+
+/-- the flag hypotheses of `il_cc_condition` are satisfiable -/
+example : FlagsHeld { scalars := [("CF", bit true), ("ZF", bit false), ("SF", bit true), ("OF", bit false), ("PF", bit false)] }
+    { (default : St) with cf := true, sf := true } :=
+  ⟨rfl, rfl, rfl, rfl, rfl⟩
+
+/-- a carry and an overflow really occur: the formulas are not constantly false -/
+example : carryAdd 0xff#8 1#8 false = true ∧ overflowAdd 0x7f#8 1#8 false = true ∧ borrowSub 0#8 1#8 false = true := by decide
+
+end Falcon.C01.Props
